@@ -82,6 +82,11 @@ RULE = ("dimension 1/2/3 (sub-checks d1/d2/d3). Per axis one of: float (width 0.
         "limits outside the range, cherab Swizzle2D/3D of a permuted callable. The oracle is the object that was handed in, evaluated "
         "directly: nodes (corners of the visited cells) and outside pass-through for every flavour, multilinear exactness / h^2 bound "
         "for the flavours that are the family function itself, order independence with a second identical construction. "
+        "Raising wrapped function (one per case): the function raises RuntimeError / ZeroDivisionError / KeyError / a custom exception "
+        "once or twice, on its k-th call (k <= 4^d) or whenever it is called at one chosen node of the 4^d stencil of a visited cell "
+        "(guard nodes min-res / max+res included), then works; the exception must leave evaluate() with the same type, and every "
+        "evaluation that returns (retry at the same point, neighbours, second pass over the list) must be bit-equal to the cache over "
+        "the never-failing function. "
         "Interference / repeat: every case carries a second configuration B of the same class (own function, area, resolution, options; "
         "in 1/3 of the cases the same area and resolution as A with another function; in 1/2 the same options as A; both are built "
         "with options equal to their defaults omitted). B is judged on its own against f_B; then a fresh A is evaluated point by "
@@ -147,7 +152,8 @@ _COMMON = ("fam:mlin", "fam:quad", "fam:sin", "fam:const", "fb:none", "fb:true",
            "second:other-family", "repeat:in-a-row", "repeat:after-other", "repeat:sibling",
            # flavours of the wrapped function (besides the recording Python callable and form:fn-object)
            "wrapped:inner-cache", "wrapped-node:inner-cache", "wrapped:expr", "wrapped:constant", "wrapped:interp-raysect",
-           "wrapped:interp-cherab", "wrapped:cherab-clamp")
+           "wrapped:interp-cherab", "wrapped:cherab-clamp",
+           "raise:kth", "raise:node", "raise:guard-node", "raise:propagated", "raise:twice", "raise:retry-ok")
 REQUIRED_LABELS = [l for l in
                    ["%s:%s" % (d, x) for d in ("d1", "d2", "d3") for x in _COMMON]
                    + ["d1:wrapped:cherab-clampinput", "d2:wrapped:cherab-swizzle", "d3:wrapped:cherab-swizzle", "d1:cells:large", "d2:cells:large", "d2:aniso", "d3:aniso", "d2:mlin:cross-inside", "d3:mlin:cross-inside"]
@@ -304,6 +310,14 @@ def _flavour():
         st.fixed_dictionaries({"kind": st.sampled_from(["clamp", "swizzle"])}))
 
 
+def _fail():
+    """A wrapped function that raises on chosen calls: the k-th call, or calls at one chosen stencil node (incl. guard nodes)."""
+    return st.fixed_dictionaries({
+        "mode": st.sampled_from(["kth", "node", "node"]), "kfrac": st.floats(0.0, 0.999), "pt": st.integers(0, 11),
+        "off": st.lists(st.sampled_from([-1, -1, 0, 1, 2, 2]), min_size=3, max_size=3), "times": st.sampled_from([1, 1, 2]),
+        "exc": st.sampled_from(["RuntimeError", "ZeroDivisionError", "KeyError", "Boom"])})
+
+
 def _forms():
     """Input forms of the second, 'non-canonical' construction (values are the same doubles)."""
     return st.fixed_dictionaries({
@@ -408,7 +422,7 @@ def _case(draw, dim, second=True):
     alts = list(draw(st.permutations([m for m in ("none", "true", "loose", "degenerate") if m != fb])))[:2]
     case = {"dim": dim, "area": area, "res": res, "nbe": draw(st.booleans()), "fb": fb,
             "fb_x": [draw(st.sampled_from([0.0, 1.0, 10.0, 100.0])) * draw(st.floats(0.0, 1.0)) for _ in range(2)],
-            "alts": alts, "forms": draw(_forms()), "flavour": flavour,
+            "alts": alts, "forms": draw(_forms()), "flavour": flavour, "fail": draw(_fail()),
             "f": fn, "pts": pts, "perm": perm, "shrunk": shrunk}
     if not second:
         return case
@@ -557,6 +571,32 @@ def _handed_in(flv, fn, dim, area, res):
         return cls(*(axes + [data, "cubic", "nearest"] + rng)), "interp-raysect", False, coarse
     cls = (CM.Interpolate1DCubic, CM.Interpolate2DCubic, CM.Interpolate3DCubic)[dim - 1]
     return cls(*(axes + [data]), extrapolate=True, extrapolation_type="nearest", extrapolation_range=max(rng)), "interp-cherab", False, coarse
+
+
+class Boom(Exception):
+    pass
+
+
+EXC = {"RuntimeError": RuntimeError, "ZeroDivisionError": ZeroDivisionError, "KeyError": KeyError, "Boom": Boom}
+
+
+class FailFn:
+    """Wraps an Fn; raises `exc` on the k-th call (mode kth) or on calls with the arguments `node` (mode node), `times` times in all."""
+
+    def __init__(self, fn, exc, times, k=None, node=None):
+        self.fn, self.exc, self.left, self.k, self.node = fn, exc, times, k, node
+        self.range, self.absmax = fn.range, fn.absmax
+        self.n = 0
+        self.raised = 0
+
+    def __call__(self, *p):
+        self.n += 1
+        p = tuple(float(v) for v in p)
+        if self.left > 0 and ((self.k is not None and self.n >= self.k) or (self.node is not None and p == self.node)):
+            self.left -= 1
+            self.raised += 1
+            raise self.exc("wrapped function failed at %r (call %d)" % (p, self.n))
+        return self.fn.value(p)
 
 
 def build_flavour(case, spec, dim, area, res, flv, ctx):
@@ -903,6 +943,56 @@ def run(case, ctx):
             v = ev(O2, pts[i], "flavour/evaluate")
             ctx.check(_bits(v) == _bits(vO[i]), "flavour/history",
                       lambda: "wrapped=%s: %r in list order, %r in order %r at p=%r" % (flab, vO[i], v, perm, pts[i]))
+
+    # ---- a wrapped function that raises: the exception propagates, and nothing of the failed evaluation is left behind
+    fl = case.get("fail")
+    if fl:
+        exc = EXC[fl["exc"]]
+        inner_pts = [i for i in range(len(pts)) if kl[i] != "out"]
+        k = node = None
+        if fl["mode"] == "kth" or not inner_pts:
+            k = 1 + int(float(fl["kfrac"]) * 4 ** dim)
+            ctx.label("raise:kth")
+        else:
+            j = inner_pts[int(fl["pt"]) % len(inner_pts)]
+            nd, guard = [], False
+            for a in range(dim):
+                ext = [area[2 * a] - res[a]] + grids[a] + [area[2 * a + 1] + res[a]]
+                idx = min(max(cells[j][a] + 1 + int(fl["off"][a]), 0), len(ext) - 1)
+                guard = guard or idx in (0, len(ext) - 1)
+                nd.append(ext[idx])
+            node = tuple(nd)
+            ctx.label("raise:guard-node" if guard else "raise:node")
+        ff = FailFn(Fn(spec, dim, area, res), exc, int(fl["times"]), k, node)
+        with ctx.cut("raising/constructor"):
+            R, _ = _make(case, ff)
+        for rnd in (0, 1):
+            for i, p in enumerate(pts):
+                for attempt in range(4):
+                    before = ff.raised
+                    try:
+                        v = R(*p)
+                    except ValueError:
+                        v = None
+                    except Exception as e:  # noqa
+                        ctx.check(type(e) is exc and ff.raised == before + 1, "raising/propagate",
+                                  lambda: "wrapped function raised %s, evaluate() raised %s: %s" % (exc.__name__, type(e).__name__, e))
+                        ctx.label("raise:propagated")
+                        if attempt:
+                            ctx.label("raise:twice")
+                        continue
+                    ctx.check(ff.raised == before, "raising/swallowed",
+                              lambda: "the wrapped function raised %s during evaluate(%r) but the cache returned %r" % (exc.__name__, p, v))
+                    ctx.check(_bits(v) == _bits(vA[i]), "raising/later-value",
+                              lambda: "after %d failed evaluation(s) of the wrapped function (%s at %s) the cache returns %r at p=%r; "
+                              "a fresh cache over the never-failing function returns %r" % (ff.raised, exc.__name__, node if node else "call %d" % k, v, p, vA[i]))
+                    break
+                else:
+                    ctx.fail("raising/retry", "evaluate(%r) still raises after the wrapped function stopped failing" % (p,))
+        if ff.raised:
+            ctx.label("raise:retry-ok")
+        else:
+            ctx.label("raise:never-reached")
 
     # ---- interference: a second cache B (other function / area / resolution) alive and used between A's evaluations; repeats
     sec = case.get("second")
